@@ -996,7 +996,26 @@ def replay(chk, rp):
     return bool(fails)
 
 
+def _d53_differs():
+    """D53: the standard variants give oneof members `group=` only, the pydantic variants `optional=True, group=`
+    (PydanticOneOfFieldCompiler); with include_default_values=True an UNSELECTED member is written as its default by
+    the former and as null by the latter.  The two classes below are what the two variants generate for
+    `message A { oneof g { int32 a = 1; string b = 2; } }`."""
+    import dataclasses
+    from typing import Optional
+    A = dataclasses.make_dataclass("A", [("a", int, betterproto.int32_field(1, group="g")),
+                                         ("b", str, betterproto.string_field(2, group="g"))],
+                                   bases=(betterproto.Message,), eq=False, repr=False)
+    B = dataclasses.make_dataclass("A", [("a", Optional[int], betterproto.int32_field(1, optional=True, group="g")),
+                                         ("b", Optional[str], betterproto.string_field(2, optional=True, group="g"))],
+                                   bases=(betterproto.Message,), eq=False, repr=False)
+    same_default = A(b="x").to_json() == B(b="x").to_json() and bytes(A(b="x")) == bytes(B(b="x"))
+    return same_default and A(b="x").to_json(include_default_values=True) != B(b="x").to_json(include_default_values=True)
+
+
 def replay_known(chk, entry):
     w = entry.get("witness") or {}
+    if w.get("kind") == "include-default-values-unselected-oneof-member":
+        return _d53_differs()
     fails = rerun(w["protos"], w.get("opts", []), w.get("value"))
     return bool(fails)
